@@ -710,6 +710,23 @@ func (la *LockAnalysis) analyse(fn *ssa.Function) *LockSummary {
 	return sum
 }
 
+// TakesLock reports whether fn contains a lock operation (direct or via a callee summary).
+func (la *LockAnalysis) TakesLock(fn *ssa.Function) bool {
+	found := false
+	Instrs(fn, func(i ssa.Instruction) {
+		if found {
+			return
+		}
+		switch i.(type) {
+		case *ssa.Call, *ssa.Defer, *ssa.Go:
+			if len(la.eventsOf(i)) > 0 {
+				found = true
+			}
+		}
+	})
+	return found
+}
+
 func (s cset) String() string {
 	var p []string
 	if s&cM1 != 0 {
